@@ -14,21 +14,26 @@ from __future__ import annotations
 import json
 import multiprocessing as mp
 import os
+from concurrent.futures import ThreadPoolExecutor
 
-from ..core import Check, MachineryError, main
+from ..core import Check, MachineryError, main, run_tlc
 from . import c08_impl as impl
 
-THEOREMS = ["SCCPartition", "CondensationAcyclic", "PeelInv", "ConstructionValid", "NoEmptyStage",
+THEOREMS = ["SCCPartition", "CondensationAcyclic", "PeelInv", "ConstructionValid", "ScheduleRespectsDependencies",
+            "NoEmptyStage",
             "CouplingFacts", "Nilpotent", "CompositionTheorem", "InitChainTheorem"]
 ACTIONS = ("Build", "Condense", "Peel", "Reverse")
+# the models are small: a 2 GB heap is plenty (other checks run on the same machine); deeper thread stacks for
+# the recursive operators evaluated under -coverage
+JVM = {"JAVA_TOOL_OPTIONS": "-XX:+UseParallelGC -Xmx2g -Xss16m"}
 
 
 def consts(fam="E", nmin=1, nmax=3, order="all", loops="all", privs=(True, False), dups=(False,), uk=2,
-           mod=1, key=0, emit=False):
+           mod=1, key=0, pick=0, emit=False):
     b = lambda xs: "{" + ", ".join("TRUE" if x else "FALSE" for x in xs) + "}"  # noqa: E731
     return (f'CONSTANTS\n Fam = "{fam}"\n NMin = {nmin}\n NMax = {nmax}\n OrderMode = "{order}"\n'
             f' LoopMode = "{loops}"\n Privs = {b(privs)}\n Dups = {b(dups)}\n UK = {uk}\n'
-            f' SampleMod = {mod}\n SampleKey = {key}\n Emit = {"TRUE" if emit else "FALSE"}\n')
+            f' SampleMod = {mod}\n SampleKey = {key}\n Pick = {pick}\n Emit = {"TRUE" if emit else "FALSE"}\n')
 
 
 def cfg(theorems=True, **kw):
@@ -49,9 +54,9 @@ def plan(ck: Check):
     runs = []
     if not ck.thorough:
         # every graph on <= 3 disciplines, self-loops, all listing orders, private x_d / y_d
-        runs.append(("E<=3", dict(nmin=1, nmax=3, privs=(True,)), True, full))
+        runs.append(("E<=3", dict(nmin=1, nmax=3, privs=(True,)), True, ("mdachain", "chain", "initchain")))
         # the same graphs without private variables (empty grammars, isolated disciplines without data)
-        runs.append(("E<=3 bare", dict(nmin=1, nmax=3, privs=(False,), order="rot"), True, full))
+        runs.append(("E<=3 bare", dict(nmin=1, nmax=3, privs=(False,), order="id"), True, full))
         # duplicated discipline names (sample)
         runs.append(("E<=3 dup", dict(nmin=2, nmax=3, privs=(True,), dups=(True,), mod=7, key=key), True, ("mdachain",)))
         # n = 4: sampled with self-loops, rotations of the listing order
@@ -60,6 +65,11 @@ def plan(ck: Check):
         # name sets over {a, b}: shared variables, fan-out, several producers
         runs.append(("N<=2x2", dict(fam="N", nmin=1, nmax=2, uk=2), True, full))
         runs.append(("N3x2 sample", dict(fam="N", nmin=3, nmax=3, uk=2, mod=5, key=key), True, full))
+        # beyond the exhaustive sizes: 5 disciplines, codes spread over the 2^25 graphs
+        runs.append(("E5 sample", dict(nmin=5, nmax=5, order="id", privs=(True,), pick=150, key=key), True,
+                     ("mdachain", "initchain")))
+        # theorems only (no replay, checked while the real code runs): every edge set on 4 disciplines
+        runs.append(("E4 theorems", dict(nmin=4, nmax=4, order="id", loops="none", privs=(True,)), False, ()))
     else:
         runs.append(("E<=3", dict(nmin=1, nmax=3), True, full + ("mdachain_gs", "mdachain_par")))
         runs.append(("E<=3 dup", dict(nmin=2, nmax=3, privs=(True,), dups=(True,)), True, ("mdachain", "chain")))
@@ -72,7 +82,9 @@ def plan(ck: Check):
         runs.append(("N3x3 sample", dict(fam="N", nmin=3, nmax=3, uk=3, mod=41, key=key), True, full))
         # theorems only (no replay): every one of the 65 536 graphs with self-loops on 4 disciplines
         runs.append(("E4 theorems", dict(nmin=4, nmax=4, order="id", privs=(True,)), False, ()))
-        runs.append(("E5 theorems sample", dict(nmin=5, nmax=5, order="id", privs=(True,), mod=7919, key=key), False, ()))
+        runs.append(("E5 sample", dict(nmin=5, nmax=5, order="rot", privs=(True,), pick=600, key=key), True,
+                     ("mdachain", "chain", "initchain")))
+        runs.append(("N3x4 sample", dict(fam="N", nmin=3, nmax=3, uk=4, pick=3000, key=key), True, full))
     only = os.environ.get("VERIF_C08_ONLY")
     if only:
         runs = [r for r in runs if r[0] in only.split(",")]
@@ -84,19 +96,41 @@ def sig_of(case, tag, clause):
 
 
 def run(ck: Check):
-    n_proc = min(8, os.cpu_count() or 2)
+    n_proc = min(12 if ck.thorough else 8, os.cpu_count() or 2)
     cases: list = []      # (case, kinds)
+    sets = ck.extra.setdefault("instance_sets", {})
+    # worker processes for the real code: forked now, before any thread exists, with gemseo already imported
+    impl.warm_up()
+    pool = mp.get_context("fork").Pool(n_proc)
+
+    def theorems_only(label, kw):
+        # same bookkeeping as Check.tlc, in a work directory of its own (it runs beside the other TLC runs)
+        r = run_tlc("DepGraph", cfg(**kw), ck.work / "theorems", workers=8, timeout=1700, env=JVM)
+        ck.tlc_runs.append({"module": "DepGraph", "distinct": r.distinct, "generated": r.generated, "depth": r.depth,
+                            "wall_s": round(r.wall, 2), "coverage": {k: v[0] for k, v in r.coverage.items()},
+                            "set": label})
+        if r.error or r.rc != 0 or r.violated:
+            raise MachineryError(f"TLC failed on DepGraph ({label}): {r.violated or r.error or r.out[-2000:]}")
+        for a in ACTIONS:
+            if r.coverage.get(a, [0, 0])[0] == 0:
+                raise MachineryError(f"vacuity: action {a} of DepGraph never taken ({label})")
+        ck.states += r.distinct
+        ck.transitions += r.generated
+        sets[label] = {"instances": _count_init(r), "replayed": 0}
+
+    # the theorem-only sets do not feed the replay: TLC checks them while the real code is being run
+    background = ThreadPoolExecutor(max_workers=1)
+    pending = [background.submit(theorems_only, label, kw) for label, kw, emit, _ in plan(ck) if not emit]
     for label, kw, emit, kinds in plan(ck):
         if not emit:
-            r = ck.tlc("DepGraph", cfg(**kw), workers=8, timeout=1500, require_actions=ACTIONS)
-            ck.extra.setdefault("instance_sets", {})[label] = {"instances": r.distinct and _count_init(r), "replayed": 0}
             continue
-        r = ck.tlc("DepGraph", cfg(emit=True, **kw), workers=4, timeout=1500, require_actions=ACTIONS + ("EmitCase",))
+        r = ck.tlc("DepGraph", cfg(emit=True, **kw), workers=4, timeout=1500, require_actions=ACTIONS + ("EmitCase",),
+                   env=JVM)
         got = [impl.case_from_tlc(v) for v in r.printed() if isinstance(v, tuple) and v and v[0] == "CASE"]
         n_init = _count_init(r)
         if not got or len(got) != n_init:
             raise MachineryError(f"{label}: {len(got)} CASE records parsed for {n_init} instances")
-        ck.extra.setdefault("instance_sets", {})[label] = {"instances": n_init, "replayed": len(got)}
+        sets[label] = {"instances": n_init, "replayed": len(got)}
         got.sort(key=lambda c: json.dumps(c["code"], sort_keys=True))   # TLC's workers print in any order
         for c in got:
             ks = [k for k in kinds if c["consistent"] and (k not in ("chain", "parchain") or c["singletons"])]
@@ -105,8 +139,7 @@ def run(ck: Check):
     jobs = [(i + 1, c, ks) for i, (c, ks) in enumerate(cases)]
     chunk = 64
     chunks = [jobs[i:i + chunk] for i in range(0, len(jobs), chunk)]
-    ctx = mp.get_context("fork")
-    with ctx.Pool(n_proc) as pool:
+    with pool:
         reports = [rep for part in pool.map(impl.observe_many, chunks) for rep in part]
     # ---- the specification decides
     by_id = {rep["id"]: rep for rep in reports}
@@ -116,7 +149,7 @@ def run(ck: Check):
         part = reports[b0:b0 + batch]
         f = ck.work / f"reports-{b0}.json"
         f.write_text(json.dumps([{k: v for k, v in rep.items() if k != "errors"} for rep in part]))
-        r = ck.tlc("DepGraphReport", report_cfg(), workers=4, timeout=1500, env={"REPORT_FILE": str(f)},
+        r = ck.tlc("DepGraphReport", report_cfg(), workers=4, timeout=1500, env=dict(JVM, REPORT_FILE=str(f)),
                    coverage=False, count=False)
         ck.states += r.distinct
         ck.transitions += r.generated
@@ -153,12 +186,17 @@ def run(ck: Check):
                     st = (rep["status"] if tag == "structure" else run_["status"])
                     sig["exception"] = st.split(":", 1)[-1]
                 ck.violation(f"{tag}:{clause}", sig, detail)
-    for c, ks in cases[:: max(1, len(cases) // 5)][:6]:
+    for fut in pending:
+        fut.result()          # a failure of a theorem-only run is raised here
+    background.shutdown()
+    for i in list(range(0, len(cases), max(1, len(cases) // 5)))[:6]:
+        c, ks = cases[i]
         ck.sample({"code": c["code"], "ins": c["ins"], "outs": c["outs"], "expected_data": c["mono"],
-                   "executions": ks, "reported_sequence": by_id[cases.index((c, ks)) + 1]["seq"]})
+                   "executions": ks, "reported_sequence": by_id[i + 1]["seq"]})
     ck.extra["executions_of_chains"] = n_runs
     ck.extra["worker_processes"] = n_proc
-    ck.exhaustive = True   # every enumerated instance selected for replay was replayed and judged by TLC
+    # every instance of the enumerated sets was replayed and judged by TLC, unless a set is theorems-only
+    ck.exhaustive = all(emit for _, _, emit, _ in plan(ck))
     ck.assumptions += [
         "numeric layer: out = sum(w*in) + c with integer w in {0,1}: weight 0 on the edges that close a cycle "
         "(nilpotent coupling although the grammars are strongly coupled), so every value is an exact integer",
